@@ -1,9 +1,118 @@
-import Fpdec.Lemmas.Dom
+import Fpdec.Model.Threads
 import Fpdec.Props.C19_Sites
 
-/-! # C19 — property theorems (under construction: see DESIGN.md section 6) -/
+/-!
+# C19 — The default rounding mode is per thread and starts as HalfEven
+
+State-machine model (`Model/Threads.lean`): a world maps storage cells to modes; which cell a thread uses (`cellOf`) and the initial
+value (`dfltInit`) are read from the source on every run (`Gen.DFLT_MODE_THREAD_LOCAL`, `Gen.DFLT_MODE_INIT`): with `thread_local!`
+every thread has its own cell, with a process-wide `static` all threads would share cell 0 — and `isolation` below would be false.
+
+* `storage_is_thread_local`, `initial_mode`: what the source says now.
+* `isolation`: after ANY schedule (any interleaving of `set_default` / `default()` / rounding operations of any number of threads)
+  the mode seen by thread `t` — by `default()` and by every rounding operation executed on `t` — is the one `t` set last, else the
+  initial mode; operations of other threads never change it.
+* `new_thread_starts_half_even`: a thread that never called `set_default` sees `RoundHalfEven` whatever the others did.
+The run-time behaviour of `thread_local!` itself (OS threads, TLS) has no counterpart in the model: it is exercised by the
+correspondence run, which replays schedules on real OS threads, each schedule in a fresh process (partial).
+-/
 
 namespace Fpdec.Props.C19
 open Fpdec Fpdec.Model
+
+theorem storage_is_thread_local : Gen.DFLT_MODE_THREAD_LOCAL = true := by decide
+
+theorem initial_mode : dfltInit = Mode.heven := by decide
+
+theorem cellOf_eq (t : Nat) : cellOf t = t := by
+  unfold cellOf; rw [storage_is_thread_local]; rfl
+
+/-- the world after a schedule -/
+def after (prof : Profile) (w : World) : List ThreadOp → World
+  | [] => w
+  | op :: ops => after prof (threadStep prof w op).1 ops
+
+/-- the mode thread `t` set last in a schedule, if any -/
+def lastSet (t : Nat) : List ThreadOp → Option Mode
+  | [] => none
+  | .set t' m :: ops => match lastSet t ops with
+    | some m' => some m'
+    | none => if t' = t then some m else none
+  | _ :: ops => lastSet t ops
+
+theorem read_set (w : World) (c c' : Nat) (m : Mode) :
+    World.read ((c, m) :: w.filter (fun e => e.1 ≠ c)) c' = if c' = c then m else World.read w c' := by
+  unfold World.read
+  by_cases h : c' = c
+  · subst h; simp
+  · have h' : ¬ c = c' := fun e => h e.symm
+    simp only [List.find?_cons, h', decide_false, h, if_false]
+    rw [List.find?_filter]
+    have hfun : (fun a : Nat × Mode => decide (decide (a.fst ≠ c) = true ∧ decide (a.fst = c') = true)) =
+        (fun e => decide (e.fst = c')) := by
+      funext a
+      by_cases ha : a.1 = c'
+      · have : ¬ a.1 = c := by rw [ha]; exact h
+        simp [ha, h]
+      · simp [ha]
+    rw [hfun]
+
+theorem default_setDefault (w : World) (t t' : Nat) (m : Mode) :
+    (w.setDefault t m).default t' = if t' = t then m else w.default t' := by
+  unfold World.default World.setDefault
+  rw [cellOf_eq, cellOf_eq, read_set]
+
+theorem step_default (prof : Profile) (w : World) (op : ThreadOp) (t : Nat) :
+    (threadStep prof w op).1.default t =
+      match op with
+      | .set t' m => if t = t' then m else w.default t
+      | _ => w.default t := by
+  cases op with
+  | set t' m => simp [threadStep, default_setDefault]
+  | get t' => simp [threadStep]
+  | round t' c p n => simp [threadStep]
+  | probe t' => simp [threadStep]
+
+/-- ISOLATION: the default mode of thread `t` after any schedule is the mode `t` itself set last, else what it was before -/
+theorem isolation (prof : Profile) (ops : List ThreadOp) (w : World) (t : Nat) :
+    (after prof w ops).default t = (lastSet t ops).getD (w.default t) := by
+  induction ops generalizing w with
+  | nil => simp [after, lastSet]
+  | cons op ops ih =>
+    unfold after
+    rw [ih, step_default]
+    cases op with
+    | set t' m =>
+      simp only [lastSet]
+      cases h : lastSet t ops with
+      | some m' => simp
+      | none =>
+        by_cases ht : t = t'
+        · subst ht; simp
+        · have : ¬ t' = t := fun e => ht e.symm
+          simp [ht, this]
+    | get t' => simp [lastSet]
+    | round t' c p n => simp [lastSet]
+    | probe t' => simp [lastSet]
+
+/-- a thread that never set a mode sees `RoundHalfEven`, whatever other threads did -/
+theorem new_thread_starts_half_even (prof : Profile) (ops : List ThreadOp) (t : Nat) (h : lastSet t ops = none) :
+    (after prof [] ops).default t = Mode.heven := by
+  rw [isolation, h]
+  simp [World.default, World.read, initial_mode]
+
+/-- every observation of the schedule runner is made with the world produced by the preceding operations: a rounding operation on
+    thread `t` rounds under `t`'s own mode -/
+theorem runSchedule_cons (prof : Profile) (w : World) (op : ThreadOp) (ops : List ThreadOp) :
+    runSchedule prof w (op :: ops) = (threadStep prof w op).2 :: runSchedule prof (threadStep prof w op).1 ops := rfl
+
+theorem round_uses_own_mode (prof : Profile) (w : World) (t : Nat) (c : Int) (p : Nat) (n : Int) :
+    (threadStep prof w (.round t c p n)).2 = .dec (round prof (w.default t) ⟨c, p⟩ n) := rfl
+
+/-! ### non-vacuity: two threads, interleaved -/
+example : runSchedule Profile.dev [] [.set 1 .up, .get 1, .get 2, .round 1 15 1 0, .round 2 15 1 0] =
+    [.none, .mode .up, .mode .heven, .dec (.ok ⟨2, 0⟩), .dec (.ok ⟨2, 0⟩)] := by decide
+example : runSchedule Profile.dev [] [.set 1 .down, .set 2 .up, .round 1 15 1 0, .round 2 15 1 0] =
+    [.none, .none, .dec (.ok ⟨1, 0⟩), .dec (.ok ⟨2, 0⟩)] := by decide
 
 end Fpdec.Props.C19
